@@ -27,6 +27,18 @@ def gen_binary(tier, rng):
             if rng.random() < 0.5:
                 a, b = b, a
         yield {"a": a, "b": b, "op": rng.choice(["add", "sub", "mul"]), "via": rng.choice(["operator", "numpoly", "numpy"])}
+    # coefficient types the compiled kernels do not handle (the pure-Python paths run), operands with several terms in
+    # shared indeterminates so that different pairs of terms meet in the same monomial of a product
+    for _ in range(count(tier, 60, 600)):
+        dt = rng.choice(["int32", "float32", "int8", "int16", "uint8", "complex64", "float16"])
+        pool = [0, 1, 2, 3] if dt == "uint8" else [-2, -1, 1, 2, 3]
+        names = sorted(rng.sample(["q0", "q1", "q2"], rng.choice([1, 2])), key=lambda n: int(n[1:]))
+        s1, s2 = broadcastable_pair(rng)
+        a = {"poly": rand_poly(rng, shape=s1, names=names, dtype=dt, pool=pool, maxterms=3, maxexp=2)}
+        b = {"poly": rand_poly(rng, shape=s2, names=names, dtype=rng.choice([dt, dt, "int64"]), pool=pool, maxterms=3, maxexp=2)}
+        # (no subtraction in an unsigned type: wrapping below zero is numpy's arithmetic, not the library's)
+        ops = ["mul", "mul", "add"] if dt == "uint8" else ["mul", "mul", "add", "sub"]
+        yield {"a": a, "b": b, "op": rng.choice(ops), "via": rng.choice(["operator", "numpoly", "numpy"])}
 
 
 OPS = {"add": (operator.add, "add"), "sub": (operator.sub, "subtract"), "mul": (operator.mul, "multiply")}
@@ -46,7 +58,8 @@ def _apply(op, via, x, y):
        functions=("numpoly.add", "numpoly.subtract", "numpoly.multiply", "numpoly.simple_dispatch",
                   "numpoly.align_polynomials", "numpoly.clean_attributes", "numpoly.polynomial_from_attributes"),
        note="bounded: operands with <=3 terms, <=3 indeterminates, exponents<=3, shapes from 13 broadcastable pairs, "
-            "poly/number/list/ndarray on either side, int64 and float64 coefficients")
+            "poly/number/list/ndarray on either side, int64 and float64 coefficients; plus 60 (600) pairs with several terms in "
+            "shared indeterminates and int8/int16/int32/uint8/float16/float32/complex64 coefficients (pure-Python kernels)")
 def binary_exact(inp):
     install_poison()
     x, y = operand(inp["a"]), operand(inp["b"])
